@@ -87,6 +87,11 @@ def configs(tier, seed):
                 if form == "list" and rhs == "read":
                     continue
                 out.append(dict(h="int_labels", op="intl", key=f"int_labels/{'_'.join(map(str, items))}/{form}/{rhs}", xd="ta", lens=dict(t=len(items), a=2), items=items, form=form, rhs=rhs))
+    # an integer-labelled dimension stored first, selected by one item, next to a list / subset on the last dimension, with a
+    # kept dimension in between (3-d; equal lengths of the first and last dimension)
+    for items in ([2000, 2001, 2002], [2002, 2000, 2001], [0, 1, 2]):
+        for rhs in ("read", "number", "ndarray"):
+            out.append(dict(h="int_first_axis", op="intf", key=f"int_first_axis/{'_'.join(map(str, items))}/{rhs}", xd="tab", lens=dict(t=3, a=2, b=3), items=items, rhs=rhs))
     # keys that are not items of a typed dimension but would convert to one (2010.5, "2010", 1 for "1") are unknown items
     for form in ("dict_letter", "dict_name", "bare", "tuple", "list", "subset"):
         out.append(dict(h="typed_keys", op="typed", key=f"typed_keys/{form}", xd="ts", lens=dict(t=3, s=2), form=form))
@@ -156,6 +161,40 @@ def run(cfg, w):
         w.ob_arr_eq("named_dim_resolves_shared_item_b", r.values, X[:, 0])
         r = x["p", "r"]
         w.ob_eq("two_unique_items", r.values[()], X[0, 1])
+        return
+    if h == "int_first_axis":
+        items = cfg["items"]
+        dt_ = Dimension(name="Time", letter="t", items=list(items), dtype=int)
+        da_ = Dimension(name="Alpha", letter="a", items=["a1", "a2"])
+        db_ = Dimension(name="Beta", letter="b", items=["b1", "b2", "b3"])
+        X = w.arr("x", (3, 2, 3))
+        for pos, it in enumerate(items):
+            for sel in (["b3", "b1"], ["b2"], ["b1", "b2", "b3"]):
+                x = FlodymArray(dims=DimensionSet(dim_list=[dt_, da_, db_]), values=X.copy())
+                cols = [db_.items.index(s_) for s_ in sel]
+                tag = f"{it}:{'+'.join(sel)}"
+                if cfg["rhs"] == "read":
+                    sub = Dimension(name="Some beta", letter="u", items=list(sel))
+                    r = x[{"t": it, "b": sub}]
+                    w.ob(f"read[{tag}]:dims", tuple(r.dims.letters) == ("a", "u") and np.shape(r.values) == (2, len(sel)), info=f"{r.dims.letters} {np.shape(r.values)}")
+                    if np.shape(r.values) == (2, len(sel)):
+                        for i in range(2):
+                            for j, c in enumerate(cols):
+                                w.ob(f"read[{tag}]:entry[{i},{j}]", w.same(r.values[i, j], X[pos, i, c]))
+                    continue
+                if cfg["rhs"] == "number":
+                    k = w.real(f"k{pos}_{len(sel)}_{cols[0]}")
+                    x[{"t": it, "b": list(sel)}] = k
+                    val = lambda i, j: k
+                else:
+                    R = w.arr(f"r{pos}_{len(sel)}_{cols[0]}", (2, len(sel)))
+                    x[{"t": it, "b": list(sel)}] = R.copy()
+                    val = lambda i, j: R[i, j]
+                for idx in np.ndindex(3, 2, 3):
+                    if idx[0] == pos and idx[2] in cols:
+                        w.ob(f"write[{tag}]:inside{list(idx)}", w.same(x.values[idx], val(idx[1], cols.index(idx[2]))))
+                    else:
+                        w.ob(f"write[{tag}]:outside{list(idx)}", w.same(x.values[idx], X[idx]))
         return
     if h == "int_labels":
         items = cfg["items"]
